@@ -443,7 +443,7 @@ def correspondence(ctx):
             walks.append((label, events, segs, 1))
         # random walks
         nw, ml, mb = ctx.n(3000, 20000), ctx.n(40, 120), ctx.n(3, 6)
-        K = ctx.n(1, 8)
+        K = ctx.n(1, 12)
         for w in range(nw):
             segs = []
 
